@@ -111,16 +111,22 @@ fn do_case(out: &mut Out, rng: &mut Rng, tab: &[(i128, u32)], c: Case) {
     }
 }
 
-/// Is one of the decoder's decisions within 1e-11 (in zone units / degrees) of its boundary?
+/// Is one of the decoder's decisions within 1e-11 (in zone units / degrees) of its boundary, without being
+/// an *exactly decidable* tie?  A tie is exactly decidable in f64 when the zone size is exactly
+/// representable (latitude: even format, 6 or 1.5 deg; longitude: 360/ni or 90/ni with a finite binary
+/// expansion) and `0.5 + ref/d - cpr` comes out as an exact integer: then ref/d, the product d*(j + cpr),
+/// the difference to the reference and d/2 are all exact, so the code's `>` is the exact `>` and the model
+/// must agree (this is what catches `>` turned into `>=`).  Every other near-tie is left to the oracle.
 fn near_tie(tab: &[(i128, u32)], c: &Case) -> bool {
     const EPS: f64 = 1e-11;
+    let short = |d: f64| (d * (1u64 << 40) as f64).fract() == 0.0; // finite binary expansion
     let full = if c.surf { 90.0 } else { 360.0 };
     let (rlat, rlon) = (deg(c.ra), deg(c.rb));
     let dlat = full / (60.0 - c.p as f64);
     let cy = c.yz as f64 / 131072.0;
     let cx = c.xz as f64 / 131072.0;
     let q = 0.5 + rlat / dlat - cy;
-    if (q - q.round()).abs() < EPS * q.abs().max(1.0) {
+    if (q - q.round()).abs() < EPS * q.abs().max(1.0) && !(c.p == 0 && q == q.round()) {
         return true;
     }
     let lat = dlat * (q.floor() + cy);
@@ -137,7 +143,7 @@ fn near_tie(tab: &[(i128, u32)], c: &Case) -> bool {
     let ni = nl_spec_f64(tab, lat) as i32 - c.p as i32;
     let dlon = if ni > 0 { full / ni as f64 } else { full };
     let q2 = 0.5 + rlon / dlon - cx;
-    (q2 - q2.round()).abs() < EPS * q2.abs().max(1.0)
+    (q2 - q2.round()).abs() < EPS * q2.abs().max(1.0) && !(short(dlon) && q2 == q2.round())
 }
 
 /// reference at a random bearing, `frac` x range away from (a, b)
